@@ -158,6 +158,9 @@ func units(tier string) []mc.Unit {
 					if tier == "quick" && (chunk == 1) != (ii == 0) {
 						continue
 					}
+					if chunk == 1 && ii == 2 { //nolint:mnd
+						continue // block-by-block download of the 4-block chain: dropped for the budget (the 3-block chains keep it)
+					}
 					// one reorg
 					add(params{ini, fin, []Mutation{f1}, chunk, 1, bound, false})
 					if chunk == 10 && (tier == "thorough" || ii == 1) {
@@ -533,7 +536,14 @@ func (w *world) mutate(m Mutation) {
 func run(c *mc.Ctx, u mc.Unit) {
 	p := u.Params.(params)
 	dir := sk.ScratchDir()
-	defer os.RemoveAll(dir)
+	bubbleEnded := false
+	defer func() {
+		if bubbleEnded { // every goroutine of the execution has ended and every handle of the harness is closed
+			kit.RemoveScratch(dir)
+		} else {
+			os.RemoveAll(dir)
+		}
+	}()
 	sched := act.New()
 	chain := simchain.New()
 	for i, k := range p.Initial {
@@ -568,6 +578,7 @@ func run(c *mc.Ctx, u mc.Unit) {
 	aggsync.LogFatalf = func(string, ...any) { runtime.Goexit() } // the process would exit here
 	defer func() { aggsync.LogFatalf = savedFatal }()
 	synctest.Run(func() { w.explore(incs) })
+	bubbleEnded = true
 }
 
 func (w *world) start(inc *incarnation) bool {
